@@ -253,9 +253,9 @@ def gen_e2e_case(rng, c09reg):
     return src, R, pid, vmodel, feats
 
 
-# provisional key (no id allocated yet): analyze_partial_pattern drops the type check when the scrutinee's
-# union has exactly one tuple/partial variant, so non-tuple members pass a partial pattern
-PARTIAL_ELIDED_KEY = "C08-partial-elided"
+# F57: analyze_partial_pattern drops the type check when the scrutinee's union has exactly one
+# tuple/partial variant, so non-tuple members pass a partial pattern (or fail at run time on the field read)
+PARTIAL_ELIDED_KEY = "F57"
 
 
 def classify_e2e(feats, real, model, vm):
@@ -283,6 +283,26 @@ def reg_literal(R):
                                   "".join(" (%s %d)" % ("-" if l is None else l, t) for l, t in fs)) for n, fs in R.tuples)
     from vplib.props.c09 import show_ty
     return "(reg (tuples %s) (types %s))" % (tus, " ".join(show_ty(t) for t in R.types))
+
+
+def entry_process_untyped(inp):
+    """F70c08's signature on a dumped CompatibilityInput: the program has Process types, and the entry
+    function (Callable p r rc) has no `Process(Some rc, Some r)` entry — type_of_tag (CProcess entry) = None"""
+    m = re.search(r"\(entry (\d+)\)", inp)
+    if not m or "(proc " not in inp:
+        return False
+    fns = re.findall(r"\(f (\d+)[ \d]*\)", sub(inp, "fns") or "")
+    e = int(m.group(1))
+    if e >= len(fns):
+        return False
+    types = re.findall(r"\((?:int|bin|ref|tuple \d+|partial [^()]*(?:\([^()]*\) ?)*|fn \d+ \d+ \d+|cycle \d+|union[ \d]*|proc [-\d]+ [-\d]+|res \d+|var \d+)\)", sub(inp, "types") or "")
+    t = int(fns[e])
+    if t >= len(types):
+        return False
+    mm = re.match(r"\(fn (\d+) (\d+) (\d+)\)", types[t])
+    if not mm:
+        return False
+    return ("(proc %s %s)" % (mm.group(3), mm.group(2))) not in types
 
 
 def load_corpus(name):
@@ -315,6 +335,7 @@ def run(ctx):
     inputs, real_tables, owner = [], [], []
     outcome_hist, cfg_hist = {}, {}
     config_failures = []
+    untyped_entry = []   # F70c08: the entry function's process tag has no Process type entry
     for li, o in enumerate(out):
         kind = o[1:o.find(" ")] if " " in o else o.strip("()")
         outcome_hist[kind] = outcome_hist.get(kind, 0) + 1
@@ -328,6 +349,8 @@ def run(ctx):
             base = re.sub(r"-\d+$", "", name)
             cfg_hist[base] = cfg_hist.get(base, 0) + 1
             inputs.append(inp); real_tables.append(tab); owner.append((li, name))
+            if entry_process_untyped(inp):
+                untyped_entry.append((li, name))
             structs.append((name, struct_of(st)))
         # same verdict in every configuration, on structural images
         for i in range(len(structs)):
@@ -348,6 +371,15 @@ def run(ctx):
                 li, name = owner[k]
                 ctx.violation({"kind": "correspondence-broken", "correspondence": "Compat.v vs compatibility.rs tables (%s)" % name,
                                "case": lines[li], "input": inputs[k][:3000], "real": rt[:3000], "model": mt[:3000]}, no_input=True)
+    if untyped_entry:
+        li, name = untyped_entry[0]
+        f = ctx.findings.get("F70c08")
+        obj = {"kind": "impl-violation", "statement": "istype_complete / has_type_entry: the entry function's process tag has no Process(receive, result) entry in the type table although the program uses process types, so no pattern or receive filter accepts the top-level pid",
+               "case": lines[li], "configuration": name, "programs_affected": len({l for l, _ in untyped_entry})}
+        if f and f.get("status") == "known" and f.get("property") == ctx.pid:
+            ctx.violation(obj, finding_key="F70c08")
+        else:
+            ctx.violation(obj)
     for (li, na, nb, pk, tk, va) in config_failures[:4]:
         ctx.violation({"kind": "impl-violation", "statement": "table_config_invariant: the same (pattern, tag) gets a different verdict in two configurations of one program",
                        "case": lines[li], "configurations": [na, nb], "pattern": pk, "tag": tk, "accepted_in_first": va})
@@ -414,7 +446,7 @@ def run(ctx):
         real = "1" if v.startswith("(ok (t Ok") else ("0" if v.startswith("(ok (t - ())") else v)
         if real != want:
             e2e_mismatch += 1
-            key = PARTIAL_ELIDED_KEY if "partial-elided" in src or re.search(r"=\w*\(\w+:", src) else None
+            key = PARTIAL_ELIDED_KEY if re.search(r"=\w*\(\w+:", src) else None
             obj = {"kind": "impl-violation", "statement": "pinned end-to-end probe: expected verdict %s" % want, "case": src, "real_output": v, "matched_signature": key}
             if report_finding(ctx, obj, key, known_hits):
                 unmatched += 1
@@ -432,7 +464,7 @@ def run(ctx):
         "compile_outcomes": outcome_hist, "configurations_compared": len(inputs), "configurations_by_kind": cfg_hist,
         "table_rows_compared": rows_compared, "distinct_nontrivial": nontrivial,
         "rule": "every source string of quiver-tests, std/*.qv, examples, spec.md code blocks (+ corpus/c08_sources.txt; thorough: 1500 sequenced pairs), each in up to three configurations (as compiled, tree-shaken, merged behind 0-2 earlier programs); non-trivial = distinct CompatibilityInput (SHA-1) with a non-empty table row and a union or partial type",
-        "config_invariance_failures": len(config_failures),
+        "config_invariance_failures": len(config_failures), "configurations_with_untyped_entry_process_F70c08": len(untyped_entry),
         "e2e_cases_generated": len(e2e), "e2e_verdicts_compared": e2e_run, "e2e_mismatches": e2e_mismatch, "e2e_mismatches_matching_known_findings": known_hits, "e2e_mismatches_unmatched": unmatched, "e2e_pinned_probes": len(pinned),
         "e2e_outcomes": e2e_hist, "e2e_other_outcome_samples": odd_samples, "e2e_features": feat_hist,
         "traces_validated_against_impl": len(inputs) - disagreements, "disagreements_checked": disagreements,
